@@ -387,7 +387,9 @@ def rule_lookup_delegation(ctx, prog, rule="R13"):
                     ok = recv_ok and arg_ok and idx_ok
                     detail = "= self.index_of(value).map(|left| self.index(left)) with Bins::index(i) = Range{edges[i], edges[i+1]} and right = left+1 (R20)" if ok else \
                         "range_of via index_of/index: receiver is self=%s, argument is the left index=%s, Bins::index is Range{edges[i], edges[i+1]}=%s" % (recv_ok, arg_ok, idx_ok)
-    if ok and len(list(br.reaching_defs(0, br.exits()[0], "term"))) != 1:
+    own_defs = [d for d in br.reaching_defs(0, br.exits()[0], "term")
+                if not (isinstance(strip(br.def_expr(0, d)), tuple) and strip(br.def_expr(0, d))[0] == "call" and strip(br.def_expr(0, d))[1] == "from_residual")]
+    if ok and len(own_defs) != 1:      # a `?` that hands the lookup's own None on is not a second way of producing a result
         ok, detail = False, "Bins::range_of has a second way of producing its result besides the mapped lookup"
     ctx.ob(rule, "Bins::range_of/delegates", ok, br.where(), detail, what="accessor does not use the lookup primitive")
     gs = prog.find("histogram::grid::Grid::<A>::shape")
@@ -757,3 +759,51 @@ def rule_indices_of_tree(ctx, prog, rule="R20"):
            "%d paths; decision tree equals the left-closed/right-open table on all %d (variant, index, n≤8) cases" % (len(paths), cases) if not bad else
            "decision tree differs from the left-closed/right-open specification: " + "; ".join(bad[:4]),
            what="bin lookup is not left-closed/right-open")
+
+
+
+def rule_gridbuilder(ctx, prog, rule="R9"):
+    """GridBuilder keeps the column order: builder j comes from column j of the data (from_array) and projection j of the grid
+    is built by builder j (build) – both through order-preserving adaptors only"""
+    from .rules_layout import producer_chain
+    from .rules_terms import closure_of, unwrap_try
+    # build: Grid::from(self.bin_builders.iter().map(|b| b.build()).collect())
+    gb = prog.find("histogram::grid::GridBuilder::<B>::build")
+    ok, detail = False, "no collect() of the per-builder bins"
+    for bb, t in gb.calls():
+        if callee_name(t) == "collect":
+            m = strip(gb.call_arg_exprs(bb)[0])
+            if isinstance(m, tuple) and m[0] == "call" and m[1] == "map" and len(m[3]) == 2:
+                rb, re_, chain, bad = producer_chain(prog, gb, m[3][0], stop_at_field=True)
+                cb, _ups = closure_of(prog, m[3][1])
+                per = False
+                if cb is not None:
+                    cr = strip(cb.return_expr())
+                    per = isinstance(cr, tuple) and cr[0] == "call" and cr[1] == "build" and strip(cr[3][0])[:2] == ("param", 2)
+                elif isinstance(strip(m[3][1]), tuple) and strip(m[3][1])[0] == "fn":
+                    per = strip(m[3][1])[1].endswith("::build")
+                root_ok = strip(re_) == ("field", ("param", 1, "self"), "bin_builders")
+                ok = bad is None and per and root_ok
+                detail = "projections = bin_builders.iter().map(build).collect() in builder order" if ok else \
+                    "projections come from `%s` through %s (order-disturbing: %s), per-builder build=%s" % (fmt(re_)[:60], chain, bad, per)
+    ctx.ob(rule, "GridBuilder::build/builder-order", ok, gb.where(), detail, what="projection j not built by builder j")
+    # from_array: one builder per column, in column order
+    fa = prog.find("histogram::grid::GridBuilder::<B>::from_array")
+    ok, detail = False, "no collect() of the per-column builders"
+    for bb, t in fa.calls():
+        if callee_name(t) == "collect":
+            m = strip(fa.call_arg_exprs(bb)[0])
+            if isinstance(m, tuple) and m[0] == "call" and m[1] == "map" and len(m[3]) == 2:
+                it = strip(m[3][0])
+                chain = []
+                while isinstance(it, tuple) and it[0] == "call" and it[1] != "axis_iter" and it[3]:
+                    chain.append(it[1])
+                    it = strip(it[3][0])
+                from .rules_layout import ORDER_PRESERVING
+                bad = [c for c in chain if c not in ORDER_PRESERVING]
+                src_ok = isinstance(it, tuple) and it[0] == "call" and it[1] == "axis_iter" and strip(it[3][0])[:2] == ("param", 1) and \
+                    isinstance(strip(it[3][1]), tuple) and strip(it[3][1])[0] == "agg" and strip(strip(it[3][1])[3][0]) == ("const", "usize", 1)
+                ok = src_ok and not bad
+                detail = "builders = array.axis_iter(Axis(1)).map(B::from_array).collect() in column order" if ok else \
+                    "columns come from `%s` through %s" % (fmt(it)[:60], chain)
+    ctx.ob(rule, "GridBuilder::from_array/column-order", ok, fa.where(), detail, what="builder j not derived from column j")
